@@ -123,7 +123,8 @@ func Run(o Options) (*Result, error) {
 		}
 	}
 
-	args := []string{"-XX:+UseParallelGC", "-Xss64m"}
+	// (TLC leaves an empty tlc-* directory in java.io.tmpdir on every run: keep it inside the scratch directory)
+	args := []string{"-XX:+UseParallelGC", "-Xss64m", "-Djava.io.tmpdir=" + dir}
 	if o.Heap != "" {
 		args = append(args, "-Xmx"+o.Heap)
 	}
